@@ -18,7 +18,7 @@ LETTER = {"Display": "", "Debug": "?", "LowerDebug": "x?", "UpperDebug": "X?", "
           "UpperHex": "X", "Pointer": "p", "Binary": "b", "LowerExp": "e", "UpperExp": "E"}
 ATTR = {"Display": "display", "Debug": "debug", "Octal": "octal", "LowerHex": "lower_hex", "UpperHex": "upper_hex",
         "Pointer": "pointer", "Binary": "binary", "LowerExp": "lower_exp", "UpperExp": "upper_exp"}
-MOD = {"none": "", "ws": "", "width": "5", "fill": "*<", "left": "<", "center": "^", "right": ">", "sign": "+",
+MOD = {"none": "", "ws": "", "colon": "", "colon_ws": "", "width": "5", "fill": "*<", "left": "<", "center": "^", "right": ">", "sign": "+",
        "minus": "-", "alt": "#", "zero": "0", "prec": ".2"}
 
 PRELUDE = "use core::fmt;\n#[derive(Clone, Copy)] pub struct P(pub u8);\n" + "".join(f'''
@@ -59,7 +59,8 @@ def literal(c):
     f0 = "a" if named else "_0"
     ref = {"next": "", "pos0": "0", "pos1": "1", "pos2": "2", "name_field": f0, "name_other": "v"}[lit["ref"]]
     spec = MOD[lit["mod"]] + LETTER[lit["ty"]]
-    ph = "{" + ref + ((":" + spec) if spec else "") + (" " if lit["mod"] == "ws" else "") + "}"
+    colon = ":" if (spec or lit["mod"] in ("colon", "colon_ws")) else ""
+    ph = "{" + ref + colon + spec + (" " if lit["mod"] in ("ws", "colon_ws") else "") + "}"
     s = ("a " if lit["pre"] else "") + ph + (" b" if lit["post"] else "") + ("{1}" if lit["nph"] == 2 else "")
     return s
 
@@ -127,7 +128,17 @@ def module(c, key, doc, specs):
     for i, sp in enumerate(specs):
         got = 'format!("{:%s%s}", v)' % (sp, LETTER[D])
         if doc[0] == "pass":
-            want = 'format!("{:%s%s}", P(1))' % (sp, LETTER[doc[1]])
+            inner = "P(1)"
+            if doc[1] == "Pointer" and c["args"] in ("pos_field", "named_nomatch"):
+                # the argument is the field binding itself, i.e. a reference: formatted directly under Pointer it
+                # prints the field's address (std's `impl Pointer for &T`), with the caller's flags
+                f0 = "a" if c["named"] else "0"
+                if c.get("as_variant"):
+                    inner = ("match &v { S::V { a, .. } => a, _ => unreachable!() }" if c["named"]
+                             else "match &v { S::V(x, ..) => x, _ => unreachable!() }")
+                else:
+                    inner = f"&v.{f0}"
+            want = 'format!("{:%s%s}", %s)' % (sp, LETTER[doc[1]], inner)
         else:
             want = 'format!("{:%s}", v)' % (LETTER[D],)
         rows.append(f"        ({i}, {got}, {want}),")
